@@ -516,15 +516,17 @@ fn signature(kind: &str, e: &FnEntry, types: &[DataType], rep: &Rep, cols: &[Vec
         // the declared type follows the argument encoding: key by the encoding
         return format!("return-type/{label}/{}", rep.label.split('+').next().unwrap_or(""));
     }
-    // every argument a constant, more than one row requested: the function sizes its output by its arguments
-    if !rep.args.is_empty() && rep.args.iter().all(|a| a.scalar) && n > 1 {
-        return format!("{label}/all-constant-arguments-with-several-rows");
-    }
     if kind == "representation-dependence" {
         if (name == "array_has_all" || name == "array_has_any") && !rows.is_empty() && rows.iter().all(|r| is_null(0, *r) || is_null(1, *r)) {
             // array_has_all_and_any_dispatch: `if needle.values().is_empty()` answers true/false for every row
             return format!("{label}/null-argument-ignored-when-no-needle-has-elements");
         }
+    }
+    // every argument a constant, more than one row requested: the function sizes its output by its arguments
+    if !rep.args.is_empty() && rep.args.iter().all(|a| a.scalar) && n > 1 {
+        return format!("{label}/all-constant-arguments-with-several-rows");
+    }
+    if kind == "representation-dependence" {
         if rep.label.contains("validity") && !rows.is_empty() && rows.iter().all(|r| (0..types.len()).any(|j| is_null(j, *r))) {
             // the only thing this representation changes for a NULL value is what lies under the NULL slot
             return format!("{label}/content-under-null-slot-leaks");
